@@ -92,12 +92,16 @@ func (r *runner) checkGrid(st *Step, c *Client) {
 				// every cell whose interior the footprint's interior overlaps
 				for i := range g.Grid {
 					za, zb := float64(minz)+float64(i)*res, float64(minz)+float64(i+1)*res
-					if !(loz < zb && hiz > za) {
+					// float32 rounding in the implementation's own cell arithmetic can move an edge
+					// by a fraction of a micrometre: an overlap thinner than a millimetre is not
+					// held against it
+					const tol = 1e-3
+					if !(loz < zb-tol && hiz > za+tol) {
 						continue
 					}
 					for j := range g.Grid[i] {
 						xa, xb := float64(minx)+float64(j)*res, float64(minx)+float64(j+1)*res
-						if !(lox < xb && hix > xa) {
+						if !(lox < xb-tol && hix > xa+tol) {
 							continue
 						}
 						found := false
